@@ -165,6 +165,7 @@ func (t *Table) crows() []CRow {
 	}
 	return out
 }
+
 // rows with the null cells kept (a column that is null everywhere still exists)
 func (t *Table) crowsFull() []CRow {
 	out := make([]CRow, len(t.Rows))
@@ -217,8 +218,8 @@ func (s *batchStreamer) Fetch() (*iqr.IQR, error) {
 	}
 	return q, nil
 }
-func (s *batchStreamer) Rewind()        { s.pos = 0 }
-func (s *batchStreamer) Cleanup()       {}
+func (s *batchStreamer) Rewind()       { s.pos = 0 }
+func (s *batchStreamer) Cleanup()      {}
 func (s batchStreamer) String() string { return "<c06 batch streamer>" }
 
 func rowsOf(q *iqr.IQR) ([]CRow, error) {
@@ -419,16 +420,16 @@ type Spec struct {
 	Family   string
 	SPL      string
 	Cmp      int
-	KeyCol   string                  // cmpKeys
-	Drop     []string                // columns removed before comparing (percent)
-	Model    modelFn                 // Coq command; nil = no model
-	Kind     string                  // chk | perm | rowwise | fillnull | chain
-	Chain    func(cc *coqCtx) string // Kind == chain: list of commands
+	KeyCol   string                                // cmpKeys
+	Drop     []string                              // columns removed before comparing (percent)
+	Model    modelFn                               // Coq command; nil = no model
+	Kind     string                                // chk | perm | rowwise | fillnull | chain
+	Chain    func(cc *coqCtx) string               // Kind == chain: list of commands
 	Doc      func(in []CRow, cols []string) []CRow // documented meaning of the un-cut run (cols = columns of the input)
-	FetchFl  string                  // streaming_fl | bottleneck_fl | ""
-	Known    string                  // known class for cut dependence
-	DocKnown string                  // known class for Doc mismatch
-	Tables   string                  // "" = general, "distinct" = distinct counts per a, "num" = v always numeric, "xy" = a,b in {x,y}
+	FetchFl  string                                // streaming_fl | bottleneck_fl | ""
+	Known    string                                // known class for cut dependence
+	DocKnown string                                // known class for Doc mismatch
+	Tables   string                                // "" = general, "distinct" = distinct counts per a, "num" = v always numeric, "xy" = a,b in {x,y}
 }
 
 func takeRows(in []CRow, n int) []CRow {
@@ -437,6 +438,7 @@ func takeRows(in []CRow, n int) []CRow {
 	}
 	return in[:n]
 }
+
 type docFn = func([]CRow, []string) []CRow
 
 func docHead(n int) docFn {
@@ -477,6 +479,7 @@ func docDedup(limit int, fields []string) docFn {
 		return out
 	}
 }
+
 // fillnull value=<fill> without a field list: every column that occurs anywhere in the
 // input is filled in every row
 func docFillnullAll(fill string) docFn {
@@ -926,6 +929,10 @@ func main() {
 		workerMain(os.Args[2:])
 		return
 	}
+	if len(os.Args) >= 2 && (os.Args[1] == "planned" || os.Args[1] == "race") {
+		childMain(os.Args[1])
+		return
+	}
 	log.SetLevel(log.PanicLevel)
 	if len(os.Args) >= 2 && os.Args[1] == "probe" {
 		config.InitializeTestingConfig(os.TempDir() + "/C06_probe/")
@@ -1209,7 +1216,8 @@ func main() {
 		files[k].flush(sum, cfg.Out)
 	}
 
-	runPlannedStream(cfg, sum, rng.Fork())
+	runChild("planned", cfg, sum, 3)
+	runChild("race", cfg, sum, 1)
 	runE2E(cfg, sum, rng.Fork())
 	sum.Write(cfg.Out)
 }
